@@ -1,0 +1,41 @@
+//go:build verif
+
+package reconciler
+
+// Contracts for fvc (see /verif/DESIGN.md). Comment-only file.
+
+// The handler behind the controller template: its sync may fail in any way; its requeue limit is a fixed number.
+//@ ghost var syncN Int
+//@ ghost var syncErrs Array[Int]error
+//@ pure maxRequeuesOf(h Reconciler) Int
+//@ extern func iface github.com/furiko-io/furiko/pkg/runtime/reconciler.Reconciler.SyncOne
+//@   params recv, ctx, namespace, name, numRequeues
+//@   modifies syncN, syncErrs
+//@   ensures syncN == old(syncN) + 1 && syncErrs == store(old(syncErrs), old(syncN), result)
+//@ extern func iface github.com/furiko-io/furiko/pkg/runtime/reconciler.Reconciler.MaxRequeues
+//@   params recv
+//@   ensures result == maxRequeuesOf(recv)
+//@ extern func iface github.com/furiko-io/furiko/pkg/runtime/reconciler.Reconciler.Name
+//@   params recv
+//@ extern func dyn github.com/furiko-io/furiko/pkg/runtime/reconciler.Controller.SplitMetaNamespaceKey
+//@   params key
+//@   ensures result2 == nil ==> nsname(result0, result1) == key
+
+// A failed sync is put back on the queue (rate limited) unless a positive requeue limit is exhausted; the error is returned.
+//@ func Controller.syncItem
+//@   tags C20
+//@   requires w != nil
+//@   modifies syncN, syncErrs, rlN, rlKey, clock
+//@   ensures [C20] at-most-one-sync: old(syncN) <= syncN && syncN <= old(syncN) + 1
+//@   ensures [C20] sync-error-is-returned: syncN == old(syncN) + 1 ==> result == syncErrs[old(syncN)]
+//@   ensures [C20] failed-sync-is-requeued: syncN == old(syncN) + 1 && syncErrs[old(syncN)] != nil && typeis(item, string)
+//@        && (maxRequeuesOf(w.handler) <= 0 || numRequeues(item) < maxRequeuesOf(w.handler)) ==> rlN == old(rlN) + 1 && rlKey[old(rlN)] == item
+//@   ensures [C20] success-is-not-requeued: result == nil ==> rlN == old(rlN)
+//@   ensures [C20] requeue-at-most-once: rlN <= old(rlN) + 1
+
+//@ func Controller.work
+//@   tags C20
+//@   requires w != nil
+//@   modifies syncN, syncErrs, rlN, rlKey, forgotN, doneN, clock
+//@   ensures [C20] forget-only-on-success: forgotN > old(forgotN) ==> syncN == old(syncN) || syncErrs[old(syncN)] == nil
+//@   ensures [C20] failed-sync-not-forgotten: syncN == old(syncN) + 1 && syncErrs[old(syncN)] != nil ==> forgotN == old(forgotN)
